@@ -24,6 +24,14 @@ impl<V> RangeMap<u64, V> {
     { unimplemented!() }
 }
 
+// RangeMap::ranges_values(): iteration over the stored vector in address order (materialised as the vector)
+impl<V> RangeMap<u64, V> {
+    #[verifier::external_body]
+    pub fn ranges_values(&self) -> (r: &Vec<(Range<u64>, V)>)
+        ensures r@ == self.elts@,
+    { unimplemented!() }
+}
+
 // IntoRangeMapSafe::into_rangemap_safe at Self = Vec<(Option<Range<u64>>, usize)>: contract proved in unit
 // c08_traits_into_rangemap_safe
 #[verifier::external_body]
